@@ -3,7 +3,8 @@
    (the components are pairwise disjoint), hence the statistics are count = number of
    components and modules-in-cycles = sum of the sizes.  These are the "partial" halves of
    the full correctness statement; that the components are exactly the strongly connected
-   ones is proved only for <= 4 modules (Deps/TarjanBounded.v). *)
+   ones is proved for every graph in Deps/TarjanCorrect.v / Deps/TarjanWf.v (and, by
+   computation, for <= 4 modules in Deps/TarjanBounded.v). *)
 From Coq Require Import List NArith ZArith Bool Arith Lia Permutation.
 From PV Require Import Gen.DepsConst Deps.SccSpec Deps.SccSpecProofs Deps.Tarjan Deps.TarjanProofs.
 Import ListNotations.
